@@ -182,6 +182,9 @@ class Tree(object):
             self.node(path).allocate(float(amt), child=child)
         if spec.get("prefund"):
             root.update(self.dates[0])
+        # optional: start the exploration from a non-initial state
+        for op in spec.get("preops", []):
+            self.apply(op)
 
     # ------------------------------------------------------------------
     def node(self, path):
@@ -295,11 +298,13 @@ def snapshot(tree):
             d["kind"] = "X"
             d["cls"] = type(n).__name__
             d["mult"] = f(n.multiplier)
-            d["position"] = f(n.position)
-            d["price"] = f(n.price)
+            # value/weight first: reading `price` re-marks the security on its own and
+            # would mask a security that the tree update skipped
             d["value"] = f(n.value)
             d["weight"] = f(n.weight)
             d["notl"] = f(n.notional_value)
+            d["position"] = f(n.position)
+            d["price"] = f(n.price)
             d["fi"] = bool(n.fixed_income)
             if n._bidoffer_set:
                 d["bidoffer"] = f(n.bidoffer)
